@@ -665,6 +665,116 @@ def gen_norm_cases(r, Ls, n):
         cs.append(Case(line, dict(L=L, ns=ns, ncell=ncell, atol=atol, rtol=rtol, y=y, yn=yn, err=err, small=small), "norm", oracle=oracle_norm, tags=tags))
     return cs
 
+# ---- Rosenbrock step-size controller: exact replay of the rule stated in C07 from the recorded error norms
+def decode_ros_ptoks(pt):
+    st = int(pt[0]); nt = st * (st - 1) // 2
+    gamma = unhex(pt[1 + 2 * nt + 2 * st])
+    tail = pt[-10:]
+    order = unhex(tail[0])
+    names = ("round_off", "factor_min", "factor_max", "rejection_factor_decrease", "safety_factor", "h_min", "h_max", "h_start")
+    d = {k: unhex(v) for k, v in zip(names, tail[1:9])}
+    d.update(stages=st, gamma=gamma, order=order, max_steps=int(tail[9]))
+    return d
+
+def parse_att(out):
+    i = out.find(" att=")
+    if i < 0:
+        return None
+    toks = out[i + 5:].split()
+    res = []
+    for t in toks:
+        if ":" not in t:
+            break
+        a, e = t.split(":")
+        res.append((unhex(a), None if e == "-" else unhex(e)))
+    return res
+
+def oracle_ros_controller(c, out):
+    """Replays AbstractRosenbrockSolver::Solve's controller on the error norms the implementation reported and
+    demands the alpha (= 1/(gamma H)) of every attempt, the final time, the status and the step counters to be
+    the ones the rule in the property produces."""
+    m = c.meta
+    if m.get("integ") != 0 or out is None or not out.startswith("solve "):
+        return None
+    att = parse_att(out)
+    s = parse_solve(out)
+    if att is None or s is None or not att:
+        return None
+    P = decode_ros_ptoks(m["ptoks"]); T = m["dt"]; inplace = m["kind"] >= 2
+    DELTA_MIN = 1.0e-6
+    h_max = T if P["h_max"] == 0.0 else min(T, P["h_max"])
+    h_start = max(P["h_min"], DELTA_MIN) if P["h_start"] == 0.0 else min(h_max, P["h_start"])
+    t = 0.0
+    H = min(max(abs(P["h_min"]), abs(h_start)), abs(h_max))
+    if abs(H) <= 10 * P["round_off"]:
+        H = DELTA_MIN
+    rl = rm = False
+    steps = acc = rej = 0
+    i = 0; status = "Running"; truncated = len(att) >= 48
+    def near(a, b):
+        return a == b or abs(a - b) <= 1e-12 * max(abs(a), abs(b))
+    while (t - T + P["round_off"]) <= 0 and status == "Running":
+        if steps > P["max_steps"]:
+            status = "ConvergenceExceededMaxSteps"; break
+        if (t + 0.1 * H) == t or H <= P["round_off"]:
+            status = "StepSizeTooSmall"; break
+        H = min(H, abs(T - t))
+        accepted = False; last_alpha = 0.0; first = True
+        while not accepted:
+            if i >= len(att):
+                if truncated:
+                    return None          # everything recorded agreed
+                return f"the controller rule continues with attempt #{i + 1} (H={H!r}) but the solver stopped after {len(att)} attempts (status {s['status']})"
+            alpha = 1.0 / (H * P["gamma"])
+            want = alpha if inplace else alpha - last_alpha
+            last_alpha = alpha
+            got, err = att[i]
+            if not near(got, want):
+                Hgot = 1.0 / ((got if inplace else got + (last_alpha - want) ) * P["gamma"]) if got else float("nan")
+                return (f"attempt #{i + 1} (t={t!r}, {'first try' if first else 'retry'}, {rej} counted rejections so far) used alpha={got!r}; "
+                        f"the configured controller gives H={H!r}, alpha={want!r} (h_min={P['h_min']!r} h_max={P['h_max']!r} h_start={P['h_start']!r} "
+                        f"factor_min/max={P['factor_min']!r}/{P['factor_max']!r} safety={P['safety_factor']!r} cut={P['rejection_factor_decrease']!r})")
+            if err is None:
+                return None
+            i += 1; first = False
+            den = math.pow(err, 1.0 / P["order"]) if err == err else float("nan")
+            ratio = (P["safety_factor"] / den) if den != 0 else float("inf")
+            # std::min(fmax, std::max(fmin, ratio)) with the C++ argument order (NaN handling is irrelevant: NaN exits below)
+            inner = ratio if P["factor_min"] < ratio else P["factor_min"]
+            fac = inner if inner < P["factor_max"] else P["factor_max"]
+            Hnew = H * fac
+            steps += 1
+            if err != err:
+                status = "NaNDetected"; break
+            if err in (float("inf"), float("-inf")):
+                status = "InfDetected"; break
+            if err < 1 or H < P["h_min"]:
+                acc += 1; t = t + H
+                Hnew = max(P["h_min"], min(Hnew, h_max))
+                if rl:
+                    Hnew = min(Hnew, H)
+                rl = rm = False
+                H = Hnew; accepted = True
+            else:
+                if rm:
+                    Hnew = H * P["rejection_factor_decrease"]
+                rm = rl; rl = True; H = Hnew
+                if acc >= 1:
+                    rej += 1
+    if status == "Running":
+        status = "Converged"
+    if truncated and i >= len(att):
+        return None
+    if i < len(att):
+        return f"the solver made {len(att)} attempts but the controller rule stops after {i} with status {status}"
+    if status != s["status"]:
+        return f"status {s['status']} but the controller rule on the reported errors gives {status} (t={t!r}, H={H!r}, steps={steps})"
+    if not near(t, s["final"]) and status not in ("NaNDetected", "InfDetected"):
+        return f"final_time {s['final']!r} but the accepted steps sum to {t!r}"
+    if (steps, acc, rej) != (s["stats"]["steps"], s["stats"]["acc"], s["stats"]["rej"]):
+        return f"counters steps/accepted/rejected = {s['stats']['steps']}/{s['stats']['acc']}/{s['stats']['rej']} but the attempts made give {steps}/{acc}/{rej}"
+    return None
+
 def g_c07(r, tier, env, Ls):
     n = 200 if tier == "quick" else 4000
     cs = gen_norm_cases(r, Ls, 300 if tier == "quick" else 5000)
@@ -688,7 +798,7 @@ def g_c07(r, tier, env, Ls):
             if r.chance(0.3): b["time_step_reductions"] = [r.pick([0.5, 0.25, 0.1]) for _ in range(5)]
             p["ptoks"] = G.be_param_tokens(b)
         meta = dict(p)
-        cs.append(Case(problem_line(p, trace=4), meta, "solve", tags=["integ=%d" % p["integ"], "L=%d" % p["L"]]))
+        cs.append(Case(problem_line(p, trace=4), meta, "solve", oracle=oracle_ros_controller, tags=["integ=%d" % p["integ"], "L=%d" % p["L"]]))
     return cs
 
 def g_c09(r, tier, env, Ls):
@@ -764,7 +874,15 @@ def problem_ops(r, p, s):
     ops = []
     for i in range(ns):
         ops.append(["setc", str(s), str(i)] + [hexd(y[c * ns + i]) for c in range(ncell)])
-    ops.append(["setk", str(s)] + [hexd(v) for v in k])
+    if r.chance(0.4):
+        # rate constants through the library: conditions + custom parameters + CalculateRateConstants
+        for c in range(ncell):
+            ops.append(["setcond", str(s), str(c), hexd(r.logu(200, 320)), hexd(r.logu(1e3, 1e5)), hexd(r.pick([1.0, 2.0, r.logu(0.1, 50)]))])
+        for q in r.shuffle(range(nrx)):
+            ops.append(["setp", str(s), str(q)] + [hexd(k[c * nrx + q]) for c in range(ncell)])
+        ops.append(["calc", str(s)])
+    else:
+        ops.append(["setk", str(s)] + [hexd(v) for v in k])
     ops.append(["solve", str(s), hexd(r.logu(1e-2, 1e3))])
     return ops
 
@@ -783,6 +901,7 @@ def g_c11(r, tier, env, Ls):
     for gid in range(n):
         p = gen_solve_problem(r, env, Ls, stiff=r.chance(0.5))
         p["perm"] = list(range(p["ns"]))
+        second_solver(r, env, p)
         final_ops = problem_ops(r, p, 0)
         fresh = [["new", "0"]] + final_ops
         hist = [["new", "0"]]
@@ -793,7 +912,7 @@ def g_c11(r, tier, env, Ls):
             else:
                 ops = problem_ops(r, p, 0)
                 if r.chance(0.3):   # a solve that ends badly (NaN rate constant)
-                    ops[-2] = ["setk", "0"] + [hexd(float("nan"))] * (p["ncell"] * len(p["rx"]))
+                    ops.insert(len(ops) - 1, ["setk", "0"] + [hexd(float("nan"))] * (p["ncell"] * len(p["rx"])))
                 hist += ops
         hist.append(["settol", "0"] + [hexd(1e-3)] * p["ns"] + [hexd(1e-6)])
         hist += final_ops
@@ -931,6 +1050,14 @@ def gen_build_case(r, errors=False):
     gas = names[:ng]
     nph = r.below(2)
     aq = names[ng:ng + r.rng(1, 2)] if nph else []
+    # the same species (bare name) may live in the gas phase and in the other phase
+    aq2 = []
+    for n in aq:
+        if gas and r.chance(0.4):
+            n = r.pick(gas)
+        if n not in aq2:
+            aq2.append(n)
+    aq = aq2
     def decl(n, param=False):
         has = r.chance(0.5) and not param   # a tolerance property on a parameterized (non-state) species is outside the property
         return [n, "1" if param else "0", "1" if has else "0", hexd(r.pick([1e-5, 1e-8, 1e-12, 2.5e-4]) if has else 0.0)]
@@ -1197,6 +1324,8 @@ def g_c17(r, tier, env, Ls):
                 ops.append(["dump", str(s)])
             else:
                 ops += problem_ops(r, p, s)[:-1]
+            if r.chance(0.25):                                 # the solvers themselves are moved around
+                ops.append([r.pick(["mvs_c", "mvs_a"]), str(r.below(2))])
         # finally: a copy must behave like its source: copy s -> 7, solve both with the same dt
         s = r.pick(sorted(live))
         dt = hexd(r.logu(1e-2, 1e2))
